@@ -1,0 +1,8 @@
+//go:build verif
+
+package repl
+
+import "grol.io/grol/object"
+
+// Crash points for the verification harness, see object/verif_crash.go.
+func verifCrashPoint(point string) { object.VerifCrashPoint(point) }
